@@ -11,6 +11,9 @@ if len(sys.argv)>6:
     e["line"]="fixed: property=%s %s %s"%(prop,sys.argv[6],what)
 if len(sys.argv)>7:
     e["scope"]=sys.argv[7]
+import os
+if any(f['id']==id_ for f in d['findings']) and not os.environ.get('KF_OVERWRITE'):
+    sys.exit('refusing to overwrite existing entry %s (set KF_OVERWRITE=1 to update it)'%id_)
 d['findings']=[f for f in d['findings'] if f['id']!=id_]+[e]
 d['findings'].sort(key=lambda f:f['id'])
 json.dump(d,open(p,'w'),indent=1,ensure_ascii=False)
